@@ -96,6 +96,58 @@ func corrC05(c *corrCtx) {
 			c05Case(c, fmt.Sprintf("png/combo%d-%d", cb[0], cb[1]), "png", data, d.w, d.h, uint32(d.depth), true)
 		}
 	}
+	// more than a megabyte of legal ancillary data in front of the pixel data (comments, text, private chunks, an
+	// application's own segments): the header values are still the header's (direct oracle only — too large for the
+	// line protocol)
+	{
+		bigCheck := func(class, format string, data []byte, w, h, depth uint32) {
+			wantFmt := map[string]string{"png": "PNG", "jpeg": "JPEG", "webp": "WebP"}[format]
+			prefix := fmt.Sprintf("ok %s %d %d %d ", wantFmt, w, h, depth)
+			for _, ld := range []string{format, "auto"} {
+				md, _, err, p := safeLoad(loaders[ld], bytes.NewReader(data))
+				got := metaOut(md, err, p)
+				c.stats["big-ancillary/"+ld]++
+				if len(got) < len(prefix) || got[:len(prefix)] != prefix {
+					c.direct(fmt.Sprintf("C05/%s/%s/len%d", class, ld, len(data)), "loader does not report the header's width/height/depth/format when more than 1 MiB of ancillary data precedes the pixel data",
+						map[string]interface{}{"loader": ld, "want": prefix, "got": got, "len": len(data), "file_hex": hexs(trunc(data, 128))})
+				}
+			}
+			if cfg, _, err := image.DecodeConfig(bytes.NewReader(data)); err == nil && (uint32(cfg.Width) != w || uint32(cfg.Height) != h) {
+				c.stats["big-ancillary/builder-disagrees"]++
+			}
+		}
+		for _, sofFirst := range []bool{false, true} {
+			jd := randJpegDesc(r)
+			jd.segsBefore = nil
+			for k := 0; k < 17+r.intn(4); k++ {
+				jd.segsBefore = append(jd.segsBefore, jpegSeg{[]byte{0xfe, 0xe1, 0xed}[k%3], r.bytes(65533 - r.intn(3))})
+			}
+			if sofFirst {
+				// the frame header first, the megabyte of segments between it and the scan
+				jd.interleave, jd.segsBefore = jd.segsBefore, nil
+				p := randProfilePayload(r, 600)
+				jd.iccSegs = splitICC(p, []int{300, 300})
+				jd.iccAfterSOF = true
+			}
+			data, _ := jd.build()
+			bigCheck(fmt.Sprintf("jpeg/big-ancillary/sof-first=%v", sofFirst), "jpeg", data, uint32(jd.w), uint32(jd.h), uint32(jd.precision))
+		}
+		for k := 0; k < 2; k++ {
+			d := randPngDesc(r, false, nil)
+			d.ctype, d.depth = 2, 8
+			d.w, d.h = 1+uint32(r.intn(4000)), 1+uint32(r.intn(4000))
+			if k == 0 {
+				d.pre = []pngChunk{{"tEXt", append([]byte("Comment\x00"), r.bytes(1048584+r.intn(5000))...)}}
+			} else {
+				d.pre = nil
+				for q := 0; q < 24; q++ {
+					d.pre = append(d.pre, pngChunk{"prVt", r.bytes(50000)})
+				}
+			}
+			data, _ := d.build()
+			bigCheck(fmt.Sprintf("png/big-ancillary/%d", k), "png", data, d.w, d.h, 8)
+		}
+	}
 	// PNG: field sweeps (walking bits of width and height), random ancillary chunks
 	for bit := uint(0); bit < 31; bit++ {
 		for _, which := range []int{0, 1} {
